@@ -3,3 +3,5 @@ pub mod kit;
 pub mod report;
 #[cfg(feature = "sched")]
 pub mod ilv;
+#[cfg(feature = "sched")]
+pub mod seq;
